@@ -57,6 +57,28 @@ MUTANTS = [
     {'name': 'R4 explicit collection entry point', 'prop': 'C01',
      'expect': 'R4 / callers of Heap::collect',
      'edits': [(MEM, "pub(crate) struct Heap {", "pub fn collect_garbage() {\n    HEAP.with(|heap| heap.borrow_mut().collect())\n}\n\npub(crate) struct Heap {")]},
+    # ---- C16 ----------------------------------------------------------------------------------------
+    {'name': 'G1 mem::forget of a cloned root', 'prop': 'C16', 'expect': 'G1 / std::mem::forget in yarel::core::build_methods',
+     'edits': [(CORE, "        roots.push(obj_native.clone());", "        roots.push(obj_native.clone());\n        std::mem::forget(obj_native.clone());")]},
+    {'name': 'R6 Drop for Root no longer decrements', 'prop': 'C16', 'expect': 'R6 / Drop for yarel::memory::Root',
+     'edits': [(MEM, "impl<T: 'static + GcManaged + ?Sized> Drop for Root<T> {\n    fn drop(&mut self) {\n        self.dec_num_roots();",
+                "impl<T: 'static + GcManaged + ?Sized> Drop for Root<T> {\n    fn drop(&mut self) {")]},
+    {'name': 'G2 optimised arm allocates without pacing', 'prop': 'C16', 'expect': 'G2 / allocate_raw: collect before objects.push',
+     'edits': [(MEM, "        } else {\n            self.collect_if_required();\n        }", "        }")]},
+    {'name': 'G2 threshold grows from itself, not from live bytes', 'prop': 'C16', 'expect': 'G2 / collect: threshold',
+     'edits': [(MEM, "self.collection_threshold = self.bytes_allocated * common::HEAP_GROWTH_FACTOR;",
+                "self.collection_threshold = self.collection_threshold * common::HEAP_GROWTH_FACTOR;")]},
+    {'name': 'G2 inverted threshold test', 'prop': 'C16', 'expect': 'G2 / collect_if_required',
+     'edits': [(MEM, "if self.bytes_allocated >= self.collection_threshold {", "if self.bytes_allocated <= self.collection_threshold {")]},
+    {'name': 'G3 sweep measures the colour cell, not the payload', 'prop': 'C16', 'expect': 'G3 / sweep: size_of_val',
+     'edits': [(MEM, "mem::size_of_val(&obj.data)", "mem::size_of_val(&obj.colour)")]},
+    {'name': 'G4 range cache never evicts', 'prop': 'C16', 'expect': 'G4 / Vm.range_cache grows',
+     'edits': [(VM, "        if self.range_cache.len() >= RANGE_CACHE_SIZE {", "        if self.range_cache.len() >= RANGE_CACHE_SIZE && false {")]},
+    {'name': 'G4 new rooted memo table on the Vm', 'prop': 'C16', 'expect': 'G4 / Vm.tuple_memo grows',
+     'edits': [(VM, "    handling_exception: bool,\n}", "    handling_exception: bool,\n    tuple_memo: Vec<Root<ObjTuple>>,\n}"),
+               (VM, "            handling_exception: false,\n        };", "            handling_exception: false,\n            tuple_memo: Vec::new(),\n        };"),
+               (VM, "        let tuple = self.new_root_obj_tuple(elements);\n        self.discard(num_operands);",
+                "        let tuple = self.new_root_obj_tuple(elements);\n        self.tuple_memo.push(tuple.clone());\n        self.discard(num_operands);")]},
 ]
 
 BENIGN = [
